@@ -11,8 +11,18 @@ INT_MAX_DIGITS = 4300
 
 
 class Calls:
+    SINK_CALLS = {'builtins.int': 'int', 'datetime.date': 'date', 'datetime.datetime': 'date', 'datetime': 'date', 'builtins.next': 'next',
+                  'struct.pack': 'pack', 'datetime.datetime.strptime': 'strptime', 'calendar.monthrange': 'monthrange'}
+
     def ev_Call(self, node, env):
         fn = self.eval(node.func, env)
+        kind = None
+        if isinstance(fn, Ext):
+            kind = self.SINK_CALLS.get(fn.name)
+        elif isinstance(fn, BoundMethod) and fn.name in ('index', 'pop', 'group'):
+            kind = fn.name
+        if kind and self.ctx.stack:
+            self.ctx.visited.add((self.ctx.stack[-1][0], node.lineno, node.col_offset, kind))
         args = []
         for a in node.args:
             if isinstance(a, ast.Starred):
@@ -74,13 +84,17 @@ class Calls:
         # summaries derived elsewhere
         if key == ('stdnum.util', 'clean'):
             return self.model_clean(args, kwargs, node, env)
-        if key == ('stdnum.util', 'isdigits'):
-            return self.model_isdigits(args, node, env)
         if key == ('stdnum.util', 'get_cc_module'):
             return self.model_get_cc_module(args, node, env)
         if key == ('stdnum.numdb', 'get'):
             name = ctx.S.const_value(env, args[0]) if args and isinstance(args[0], Str) else None
             return RegDB(name)
+        if key == ('stdnum.iban', '_struct_to_re') and self.iban_structs is not None and args:
+            a = args[0]
+            alts = a.alts if isinstance(a, Maybe) else [a]
+            regs = [x.reg for x in alts if isinstance(x, Str) and x.reg and x.reg[0] == 'iban' and x.reg[1] == 'bban']
+            if regs:
+                return RegexV(None, reg=regs[0])
         if key[0] == 'stdnum.util' and key[1] == 'get_soap_client':
             return Opaque('soap')
         if len(ctx.stack) >= MAXDEPTH or ctx.stack.count(key) >= 2:
@@ -493,6 +507,26 @@ class Calls:
             base = args[1].const() if isinstance(args[1], Int) else None
         ok_cls = self.int_cls(base)
         bad = [self.B.describe(env.cls(c) - ok_cls) for c in a0.cells() if not env.cls(c) <= ok_cls]
+        if bad:
+            # int() ignores surrounding whitespace: the first and last character may be blank when a
+            # digit is certain to exist in between
+            edge = ok_cls | S.WS
+            cells = a0.cells()
+            lo_ = a0.lo or 0
+            if a0.fixed:
+                inner = cells[1:-1] if len(cells) > 2 else []
+                certain = any(env.cls(c) <= ok_cls for c in cells)
+                ends = [cells[0], cells[-1]] if cells else []
+            else:
+                ends = ([a0.pre[0]] if a0.pre else []) + ([a0.suf[0]] if a0.suf else [])
+                inner = list(a0.pre[1:]) + list(a0.suf[1:]) + [a0.body]
+                certain = any(env.cls(c) <= ok_cls for i, c in enumerate(a0.pre) if i < lo_) or \
+                    any(env.cls(c) <= ok_cls for j, c in enumerate(a0.suf) if j < lo_) or \
+                    (lo_ - len(a0.pre) - len(a0.suf) >= 1 and env.cls(a0.body) <= ok_cls)
+                if not a0.pre or not a0.suf:
+                    certain = False
+            if certain and len(ends) >= 1 and all(env.cls(c) <= edge for c in ends) and all(env.cls(c) <= ok_cls for c in inner):
+                bad = []
         if bad:
             ctx.raise_('ValueError', node, env, 'int() argument may contain %s' % ', '.join(sorted(set(bad))[:3]))
         if (a0.lo or 0) < 1:
